@@ -62,10 +62,20 @@ class PGWorld(World):
             gk = "l1"
         k["gkind"] = gk
         k["family"] = rng.choice(["benign", "benign", "worst"])
+        if k["alg"] == "PDHG" and rng.random() < 0.12:
+            # well-conditioned core with differently scaled columns: non-uniform diagonal steps,
+            # used for the bounded-convergence check of the primal strong-convexity acceleration
+            k["family"] = "spread"
+            gk = "l2"
+            k["gkind"] = gk
         k["form"] = rng.choice(["closure", "objects"])
         k["ret"] = rng.choice(["fresh", "fresh", "reuse", "noncontig"])
+        k["interfere"] = rng.random() < 0.2
+        k["iterprox"] = rng.random() < 0.2
         n = rng.randint(1, 6)
-        if k["family"] == "benign":
+        if k["family"] in ("benign", "spread"):
+            if k["family"] == "spread":
+                n = max(n, 2)
             m = rng.randint(n, 8)
             q1 = common.rand_unitary(g, m, cplx)[:, :n]
             q2 = common.rand_unitary(g, n, cplx)
@@ -73,6 +83,8 @@ class PGWorld(World):
             sv = [c ** rng.random() for _ in range(n)]
             sv[0] = 1.0
             M = (q1 * np.asarray(sv)) @ q2.conj().T * rng.uniform(0.5, 2)
+            if k["family"] == "spread":
+                M = M * np.exp(np.array([rng.uniform(-1.5, 1.5) for _ in range(n)]))
         else:
             m = rng.randint(1, 8)
             M = common.randn(g, (m, n), cplx)
@@ -109,6 +121,8 @@ class PGWorld(World):
                 opts += ["primal", "primal", "both"]
             k["gamma"] = rng.choice(opts)
             k["long"] = (k["family"] == "benign") and rng.random() < 0.35
+            if k["family"] == "spread":
+                k["long"], k["steps"], k["gamma"], k["c"] = True, "array", "primal", 1.0
             if k["long"]:
                 k["sigma_rel"] = float(10 ** rng.uniform(-0.5, 0.5))
             K = 2000 if k["long"] else rng.choice([5, 12, 30, 60, 120])
@@ -235,7 +249,10 @@ class PGWorld(World):
                 if gk == "l2":
                     return v / (1 + lam * a)
                 return np.clip(v, lo, hi)
-        proxg = common.Proxy("proxg", proxg_raw, ret, stats)
+        itf = bool(k.get("interfere"))
+        if k.get("iterprox"):
+            proxg_raw = common.iterative_prox(proxg_raw, stats)
+        proxg = common.Proxy("proxg", proxg_raw, ret, stats, interfere=itf)
 
         F0 = prob.f(x0) + (prob.g(x0) if gk != "box" else 0.0)
         fscale = abs(prob.f(x0)) + abs(Fs) + 1e-12
@@ -256,7 +273,7 @@ class PGWorld(World):
             else:
                 def gradf_raw(v):
                     return (MH @ (M @ v.ravel() - y)).reshape(v.shape)
-            gradf = common.Proxy("gradf", gradf_raw, ret, stats)
+            gradf = common.Proxy("gradf", gradf_raw, ret, stats, interfere=itf)
             use_prox = not (gk == "none" and plan["seed"] % 2 == 0)
             alg = common.lib_call("GradientMethod.__init__", -1, GradientMethod, gradf, x_caller, alpha,
                                   proxg=proxg if use_prox else None,
@@ -340,9 +357,9 @@ class PGWorld(World):
                     if a.ndim:
                         a = a.reshape(v.shape)
                     return (v - a * y.reshape(v.shape)) / (1 + a)
-            Acb = common.Proxy("A", A_raw, ret, stats)
-            AHcb = common.Proxy("AH", AH_raw, ret, stats)
-            proxfc = common.Proxy("proxfc", proxfc_raw, ret, stats)
+            Acb = common.Proxy("A", A_raw, ret, stats, interfere=itf)
+            AHcb = common.Proxy("AH", AH_raw, ret, stats, interfere=itf)
+            proxfc = common.Proxy("proxfc", proxfc_raw, ret, stats, interfere=itf)
             alg = common.lib_call("PrimalDualHybridGradient.__init__", -1, PrimalDualHybridGradient,
                                   proxfc, proxg, Acb, AHcb, x_caller, u_caller, tau_arg, sigma_arg,
                                   gamma_primal=gp, gamma_dual=gd, max_iter=plan["K"] + 5, tol=0)
@@ -390,9 +407,11 @@ class PGWorld(World):
                 xprev[0] = xk.copy()
                 if kk == 2000 and k.get("long"):
                     err = float(np.linalg.norm(xk - xs.ravel()))
-                    res.note_max("pdhg_convergence_over_tol", err / (1e-1 * d_init + 1e-7 * sscale))
+                    frac = 2e-3 if k["family"] == "spread" else 1e-1
+                    res.note_max("pdhg_convergence_over_tol" + (".spread" if k["family"] == "spread" else ""),
+                                 err / (frac * d_init + 1e-7 * sscale))
                     stats["probes.pdhg_long_run"] += 1
-                    if err > 1e-1 * d_init + 1e-7 * sscale:
+                    if err > frac * d_init + 1e-7 * sscale:
                         raise Violation("not_converged", site + ".update", step,
                                         {"k": kk, "err": err, "d_init": d_init, "gamma": gam})
                 st["judged"] += 1
@@ -435,7 +454,7 @@ class PGWorld(World):
         res.nontrivial = st["judged"] > 0
         res.sim_time = float(st["k"])
         res.fingerprint = codec.json_digest([
-            k["alg"], cplx, gk, k["family"], k["form"], k["ret"], n, m, k["start"], k.get("c"),
+            k["alg"], cplx, gk, k["family"], k["form"], k["ret"], bool(k.get("interfere")), bool(k.get("iterprox")), n, m, k["start"], k.get("c"),
             k.get("accelerate"), k.get("steps"), k.get("gamma"), k.get("long"), plan["K"],
             round(np.log10(plan["lam"])), round(2 * np.log10(k.get("sigma_rel", 1.0))),
             common.compress_actions(acts)[:40],
@@ -453,6 +472,10 @@ class PGWorld(World):
             return p
         if k.get("ret") != "fresh":
             yield mod(ret="fresh")
+        if k.get("interfere"):
+            yield mod(interfere=False)
+        if k.get("iterprox"):
+            yield mod(iterprox=False)
         if k.get("form") != "closure":
             yield mod(form="closure")
         if k.get("long"):
